@@ -102,3 +102,383 @@ theorem restore (st c : Sym) (ic : SymInv c) : SymEq c (st.restore c.checkpoint)
 
 end SymEq
 end SnowVerif.Model
+
+namespace SnowVerif.Model
+
+/-- Handshake states equal up to fields that can no longer influence behaviour: the random
+    stream position, the contents of a disabled non-fixed ephemeral, and the handshake cipher
+    before any key was installed. -/
+structure Equiv (a b : HS) : Prop where
+  sym : SymEq a.sym b.sym
+  cs1 : a.cs1 = b.cs1
+  cs2 : a.cs2 = b.cs2
+  s : a.s = b.s
+  eon : a.e.on = b.e.on
+  eval : (a.e.on = true ∨ a.fixedE = true) → a.e.val = b.e.val
+  fixedE : a.fixedE = b.fixedE
+  rs : a.rs = b.rs
+  re : a.re = b.re
+  initiator : a.initiator = b.initiator
+  isPsk : a.isPsk = b.isPsk
+  oneway : a.oneway = b.oneway
+  psks : a.psks = b.psks
+  myTurn : a.myTurn = b.myTurn
+  msgs : a.msgs = b.msgs
+  pos : a.pos = b.pos
+
+theorem Equiv.refl (a : HS) : Equiv a a :=
+  ⟨SymEq.refl _, rfl, rfl, rfl, rfl, fun _ => rfl, rfl, rfl, rfl, rfl, rfl, rfl, rfl, rfl, rfl, rfl⟩
+
+theorem Equiv.withSym {a b : HS} (h : Equiv a b) (sa sb : Sym) (hs : SymEq sa sb) :
+    Equiv { a with sym := sa } { b with sym := sb } :=
+  ⟨hs, h.cs1, h.cs2, h.s, h.eon, h.eval, h.fixedE, h.rs, h.re, h.initiator, h.isPsk, h.oneway, h.psks,
+   h.myTurn, h.msgs, h.pos⟩
+
+namespace HS
+
+theorem dh_equiv (S : Suite) {a b : HS} (h : Equiv a b) (t : Tok) : a.dh S t = b.dh S t := by
+  have key : ∀ (ka kb : Toggle KeyPair) (r : Toggle Bytes), ka.on = kb.on → (ka.on = true → ka.val = kb.val) →
+      (if !(ka.on && r.on) then (Res.err (.state .missingKeyMaterial) : Res Bytes)
+       else match S.dh ka.val.priv r.val with | none => .err .dh | some out => .ok out) =
+      (if !(kb.on && r.on) then (Res.err (.state .missingKeyMaterial) : Res Bytes)
+       else match S.dh kb.val.priv r.val with | none => .err .dh | some out => .ok out) := by
+    intro ka kb r hon hval
+    cases hk : ka.on with
+    | false => have : kb.on = false := by rw [← hon]; exact hk
+               simp [hk, this]
+    | true => have hb : kb.on = true := by rw [← hon]; exact hk
+              rw [← hval hk]; simp [hk, hb]
+  have he := key a.e b.e
+  have hs' : a.s = b.s := h.s
+  unfold HS.dh
+  rw [← h.initiator, ← h.rs, ← h.re, ← hs']
+  cases t <;> cases a.initiator <;> simp only <;>
+    first | rfl | exact he _ h.eon (fun ho => h.eval (Or.inl ho))
+
+theorem pskStep_equiv (S : Suite) {a b : HS} (h : Equiv a b) (n : Nat) :
+    (pskStep S a n).1 = (pskStep S b n).1 ∧ Equiv (pskStep S a n).2 (pskStep S b n).2 ∧
+    (pskStep S a n).2.rng = a.rng ∧ (pskStep S b n).2.rng = b.rng := by
+  unfold pskStep
+  have hg : b.psks.getD n none = a.psks.getD n none := by rw [h.psks]
+  rw [hg]
+  split
+  · cases a.psks.getD n none with
+    | none => exact ⟨rfl, h, rfl, rfl⟩
+    | some psk =>
+      exact ⟨rfl, h.withSym _ _ (SymEq.mixKeyAndHash S h.sym psk), rfl, rfl⟩
+  · exact ⟨rfl, h, rfl, rfl⟩
+
+theorem dhStep_equiv (S : Suite) {a b : HS} (h : Equiv a b) (t : Tok) :
+    (dhStep S a t).1 = (dhStep S b t).1 ∧ Equiv (dhStep S a t).2 (dhStep S b t).2 ∧
+    (dhStep S a t).2.rng = a.rng ∧ (dhStep S b t).2.rng = b.rng := by
+  unfold dhStep
+  rw [← dh_equiv S h t]
+  cases a.dh S t with
+  | ok out => exact ⟨rfl, h.withSym _ _ (SymEq.mixKey S h.sym out), rfl, rfl⟩
+  | err e => exact ⟨rfl, h, rfl, rfl⟩
+  | panic p => exact ⟨rfl, h, rfl, rfl⟩
+
+end HS
+end SnowVerif.Model
+
+namespace SnowVerif.Model
+
+/-- Working states of a write that agree up to dead fields and draw from the same random stream. -/
+structure WEq (w1 w2 : WS) : Prop where
+  hs : Equiv w1.hs w2.hs
+  rng : w1.hs.rng = w2.hs.rng
+  acc : w1.acc = w2.acc
+  ev : w1.ev = w2.ev
+
+/-- Closes the field goals of an `Equiv` whose fields were not touched. -/
+macro "equiv_rest" h:ident : tactic =>
+  `(tactic| first
+    | rfl | exact ($h).cs1 | exact ($h).cs2 | exact ($h).s | exact ($h).eon | exact ($h).eval
+    | exact ($h).fixedE | exact ($h).rs | exact ($h).re | exact ($h).initiator | exact ($h).isPsk
+    | exact ($h).oneway | exact ($h).psks | exact ($h).myTurn | exact ($h).msgs | exact ($h).pos
+    | (intro _; rfl))
+
+namespace HS
+
+theorem writeTok_equiv (S : Suite) (cap : Nat) {w1 w2 : WS} (h : WEq w1 w2) (inv : SymInv w1.hs.sym) (t : Tok) :
+    (writeTok S cap w1 t).1 = (writeTok S cap w2 t).1 ∧ WEq (writeTok S cap w1 t).2 (writeTok S cap w2 t).2 := by
+  obtain ⟨hE, hr, ha, hv⟩ := h
+  cases t with
+  | psk n =>
+    have := pskStep_equiv S hE n
+    simp only [writeTok]
+    exact ⟨this.1, ⟨this.2.1, by rw [this.2.2.1, this.2.2.2, hr], ha, hv⟩⟩
+  | ee =>
+    have := dhStep_equiv S hE .ee
+    simp only [writeTok]
+    exact ⟨this.1, ⟨this.2.1, by rw [this.2.2.1, this.2.2.2, hr], ha, hv⟩⟩
+  | es =>
+    have := dhStep_equiv S hE .es
+    simp only [writeTok]
+    exact ⟨this.1, ⟨this.2.1, by rw [this.2.2.1, this.2.2.2, hr], ha, hv⟩⟩
+  | se =>
+    have := dhStep_equiv S hE .se
+    simp only [writeTok]
+    exact ⟨this.1, ⟨this.2.1, by rw [this.2.2.1, this.2.2.2, hr], ha, hv⟩⟩
+  | ss =>
+    have := dhStep_equiv S hE .ss
+    simp only [writeTok]
+    exact ⟨this.1, ⟨this.2.1, by rw [this.2.2.1, this.2.2.2, hr], ha, hv⟩⟩
+  | s =>
+    simp only [writeTok]
+    have e1 : w2.hs.s = w1.hs.s := hE.s.symm
+    have e2 : w2.acc = w1.acc := ha.symm
+    have e3 : w2.hs.sym.hasKey = w1.hs.sym.hasKey := hE.sym.2.2.1.symm
+    have henc := SymEq.encrypt S hE.sym inv w1.hs.s.val.pub (cap - w1.acc.length)
+    simp only [e1, e2, e3]
+    by_cases c1 : (!w1.hs.s.on) = true
+    · simp only [c1, ↓reduceIte]; exact ⟨by first | rfl | trivial, ⟨hE, hr, ha, hv⟩⟩
+    · simp only [c1, ↓reduceIte, Bool.false_eq_true]
+      by_cases c2 : w1.acc.length + S.pubLen + (if w1.hs.sym.hasKey = true then 16 else 0) > cap
+      · simp only [c2, ↓reduceIte]; exact ⟨by first | rfl | trivial, ⟨hE, hr, ha, hv⟩⟩
+      · simp only [c2, ↓reduceIte]
+        refine ⟨by rw [henc.1], ⟨?_, hr, ?_, ?_⟩⟩
+        · refine ⟨henc.2.1, ?_, ?_, ?_, ?_, ?_, ?_, ?_, ?_, ?_, ?_, ?_, ?_, ?_, ?_, ?_⟩ <;> equiv_rest hE
+        · simp only; rw [henc.1]
+        · simp only; rw [henc.2.2, hv]
+  | e =>
+    simp only [writeTok]
+    have e1 : w2.acc = w1.acc := ha.symm
+    have e2 : w2.hs.fixedE = w1.hs.fixedE := hE.fixedE.symm
+    have e3 : w2.hs.rng = w1.hs.rng := hr.symm
+    have e4 : w2.hs.isPsk = w1.hs.isPsk := hE.isPsk.symm
+    have e5 : w2.ev = w1.ev := hv.symm
+    simp only [e1, e2, e3, e4, e5]
+    have hsym : ∀ pk, SymEq ((if w1.hs.isPsk = true then (w1.hs.sym.mixHash S pk).mixKey S pk
+                       else w1.hs.sym.mixHash S pk))
+                      ((if w1.hs.isPsk = true then (w2.hs.sym.mixHash S pk).mixKey S pk
+                       else w2.hs.sym.mixHash S pk)) := by
+      intro pk
+      split
+      · exact SymEq.mixKey S (SymEq.mixHash S hE.sym _) _
+      · exact SymEq.mixHash S hE.sym _
+    by_cases c1 : w1.acc.length + S.pubLen > cap
+    · simp only [c1, ↓reduceIte]; exact ⟨by first | rfl | trivial, ⟨hE, hr, ha, hv⟩⟩
+    · simp only [c1, ↓reduceIte]
+      cases hf : w1.hs.fixedE with
+      | true =>
+        have hval : w2.hs.e.val = w1.hs.e.val := (hE.eval (Or.inr hf)).symm
+        simp only [↓reduceIte, hval]
+        refine ⟨by first | rfl | trivial, ⟨?_, by first | rfl | trivial, by first | rfl | trivial, by first | rfl | trivial⟩⟩
+        refine ⟨hsym _, ?_, ?_, ?_, ?_, ?_, ?_, ?_, ?_, ?_, ?_, ?_, ?_, ?_, ?_, ?_⟩ <;> equiv_rest hE
+      | false =>
+        simp only [Bool.false_eq_true, ↓reduceIte]
+        by_cases c2 : S.validPriv (rngDraw w1.hs.rng S.privLen).1 = true
+        · simp only [c2, ↓reduceIte]
+          refine ⟨by first | rfl | trivial, ⟨?_, by first | rfl | trivial, by first | rfl | trivial, by first | rfl | trivial⟩⟩
+          refine ⟨hsym _, ?_, ?_, ?_, ?_, ?_, ?_, ?_, ?_, ?_, ?_, ?_, ?_, ?_, ?_, ?_⟩ <;> equiv_rest hE
+        · simp only [c2, ↓reduceIte, Bool.false_eq_true]; exact ⟨by first | rfl | trivial, ⟨hE, hr, ha, hv⟩⟩
+
+theorem writeToks_equiv (S : Suite) (cap : Nat) (ts : List Tok) {w1 w2 : WS} (h : WEq w1 w2) (inv : SymInv w1.hs.sym) :
+    (writeToks S cap ts w1).1 = (writeToks S cap ts w2).1 ∧ WEq (writeToks S cap ts w1).2 (writeToks S cap ts w2).2 := by
+  induction ts generalizing w1 w2 with
+  | nil => exact ⟨rfl, h⟩
+  | cons t ts ih =>
+    have h1 := writeTok_equiv S cap h inv t
+    have i1 := writeTok_inv S cap w1 t inv
+    unfold writeToks
+    rw [← h1.1]
+    cases hr : (writeTok S cap w1 t).1 with
+    | ok u => cases u; exact ih h1.2 i1
+    | err e => exact ⟨rfl, h1.2⟩
+    | panic p => exact ⟨rfl, h1.2⟩
+
+/-- Working states of a read that agree up to dead fields. -/
+structure REq (r1 r2 : RS) : Prop where
+  hs : Equiv r1.hs r2.hs
+  ptr : r1.ptr = r2.ptr
+  ev : r1.ev = r2.ev
+
+theorem readTok_equiv (S : Suite) {r1 r2 : RS} (h : REq r1 r2) (inv : SymInv r1.hs.sym) (t : Tok) :
+    (readTok S r1 t).1 = (readTok S r2 t).1 ∧ REq (readTok S r1 t).2 (readTok S r2 t).2 := by
+  obtain ⟨hE, hp, hv⟩ := h
+  cases t with
+  | psk n =>
+    have := pskStep_equiv S hE n
+    simp only [readTok]
+    exact ⟨this.1, ⟨this.2.1, hp, hv⟩⟩
+  | ee =>
+    have := dhStep_equiv S hE .ee
+    simp only [readTok]
+    exact ⟨this.1, ⟨this.2.1, hp, hv⟩⟩
+  | es =>
+    have := dhStep_equiv S hE .es
+    simp only [readTok]
+    exact ⟨this.1, ⟨this.2.1, hp, hv⟩⟩
+  | se =>
+    have := dhStep_equiv S hE .se
+    simp only [readTok]
+    exact ⟨this.1, ⟨this.2.1, hp, hv⟩⟩
+  | ss =>
+    have := dhStep_equiv S hE .ss
+    simp only [readTok]
+    exact ⟨this.1, ⟨this.2.1, hp, hv⟩⟩
+  | e =>
+    simp only [readTok]
+    have e1 : r2.ptr = r1.ptr := hp.symm
+    have e4 : r2.hs.isPsk = r1.hs.isPsk := hE.isPsk.symm
+    simp only [e1, e4]
+    have hsym : ∀ pk, SymEq ((if r1.hs.isPsk = true then (r1.hs.sym.mixHash S pk).mixKey S pk
+                       else r1.hs.sym.mixHash S pk))
+                      ((if r1.hs.isPsk = true then (r2.hs.sym.mixHash S pk).mixKey S pk
+                       else r2.hs.sym.mixHash S pk)) := by
+      intro pk
+      split
+      · exact SymEq.mixKey S (SymEq.mixHash S hE.sym _) _
+      · exact SymEq.mixHash S hE.sym _
+    by_cases c1 : r1.ptr.length < S.pubLen
+    · simp only [c1, ↓reduceIte]; exact ⟨by first | rfl | trivial, ⟨hE, hp, hv⟩⟩
+    · simp only [c1, ↓reduceIte]
+      refine ⟨by first | rfl | trivial, ⟨?_, by first | rfl | trivial, hv⟩⟩
+      refine ⟨hsym _, ?_, ?_, ?_, ?_, ?_, ?_, ?_, ?_, ?_, ?_, ?_, ?_, ?_, ?_, ?_⟩ <;> equiv_rest hE
+  | s =>
+    simp only [readTok]
+    have e1 : r2.ptr = r1.ptr := hp.symm
+    have e3 : r2.hs.sym.hasKey = r1.hs.sym.hasKey := hE.sym.2.2.1.symm
+    have e5 : r2.hs.rs = r1.hs.rs := hE.rs.symm
+    simp only [e1, e3, e5]
+    have hdec := SymEq.decrypt S hE.sym inv
+      (r1.ptr.take (S.pubLen + if r1.hs.sym.hasKey = true then 16 else 0)) S.pubLen
+    by_cases c1 : r1.ptr.length < S.pubLen + if r1.hs.sym.hasKey = true then 16 else 0
+    · simp only [c1, ↓reduceIte]; exact ⟨by first | rfl | trivial, ⟨hE, hp, hv⟩⟩
+    · simp only [c1, ↓reduceIte]
+      rw [← hdec.1, ← hdec.2.2]
+      refine ⟨by first | rfl | trivial, ⟨?_, by first | rfl | trivial, by simp only [hv]⟩⟩
+      refine ⟨hdec.2.1, ?_, ?_, ?_, ?_, ?_, ?_, ?_, ?_, ?_, ?_, ?_, ?_, ?_, ?_, ?_⟩ <;> equiv_rest hE
+
+theorem readToks_equiv (S : Suite) (ts : List Tok) {r1 r2 : RS} (h : REq r1 r2) (inv : SymInv r1.hs.sym) :
+    (readToks S ts r1).1 = (readToks S ts r2).1 ∧ REq (readToks S ts r1).2 (readToks S ts r2).2 := by
+  induction ts generalizing r1 r2 with
+  | nil => exact ⟨rfl, h⟩
+  | cons t ts ih =>
+    have h1 := readTok_equiv S h inv t
+    have i1 := readTok_inv S r1 t inv
+    unfold readToks
+    rw [← h1.1]
+    cases hr : (readTok S r1 t).1 with
+    | ok u => cases u; exact ih h1.2 i1
+    | err e => exact ⟨rfl, h1.2⟩
+    | panic p => exact ⟨rfl, h1.2⟩
+
+theorem writeInner_equiv (S : Suite) {a b : HS} (h : Equiv a b) (hr : a.rng = b.rng) (inv : SymInv a.sym)
+    (p : Bytes) (cap : Nat) :
+    (writeInner S a p cap).1 = (writeInner S b p cap).1 ∧ WEq (writeInner S a p cap).2 (writeInner S b p cap).2 := by
+  have w0 : WEq { hs := a, acc := [], ev := [] } { hs := b, acc := [], ev := [] } := ⟨h, hr, rfl, rfl⟩
+  have ht := writeToks_equiv S cap (a.msgs.getD a.pos []) w0 inv
+  have hi := writeToks_inv S cap (a.msgs.getD a.pos []) { hs := a, acc := [], ev := [] } inv
+  unfold writeInner
+  have e1 : b.myTurn = a.myTurn := h.myTurn.symm
+  have e2 : b.pos = a.pos := h.pos.symm
+  have e3 : b.msgs = a.msgs := h.msgs.symm
+  simp only [e1, e2, e3]
+  by_cases c1 : (!a.myTurn) = true
+  · simp only [c1, ↓reduceIte]; exact ⟨by first | rfl | trivial, w0⟩
+  · simp only [c1, ↓reduceIte, Bool.false_eq_true]
+    by_cases c2 : a.pos ≥ a.msgs.length
+    · simp only [c2, ↓reduceIte]; exact ⟨by first | rfl | trivial, w0⟩
+    · simp only [c2, ↓reduceIte]
+      generalize hA : writeToks S cap (a.msgs.getD a.pos []) { hs := a, acc := [], ev := [] } = A at ht hi ⊢
+      generalize hB : writeToks S cap (a.msgs.getD a.pos []) { hs := b, acc := [], ev := [] } = B at ht ⊢
+      obtain ⟨t1, ⟨tE, trng, tacc, tev⟩⟩ := ht
+      rw [← t1]
+      cases hA1 : A.1 with
+      | err e => exact ⟨rfl, ⟨tE, trng, tacc, tev⟩⟩
+      | panic q => exact ⟨rfl, ⟨tE, trng, tacc, tev⟩⟩
+      | ok u =>
+        simp only
+        have f1 : B.2.acc = A.2.acc := tacc.symm
+        have f2 : B.2.hs.sym.hasKey = A.2.hs.sym.hasKey := tE.sym.2.2.1.symm
+        have f3 : B.2.ev = A.2.ev := tev.symm
+        have f4 : B.2.hs.pos = A.2.hs.pos := tE.pos.symm
+        have f5 : B.2.hs.msgs = A.2.hs.msgs := tE.msgs.symm
+        simp only [f1, f2, f3, f4, f5]
+        by_cases c3 : A.2.acc.length + p.length + 16 > cap
+        · simp only [c3, ↓reduceIte]; exact ⟨by first | rfl | trivial, ⟨tE, trng, tacc, tev⟩⟩
+        · simp only [c3, ↓reduceIte]
+          by_cases c4 : A.2.acc.length + p.length + (if A.2.hs.sym.hasKey = true then 16 else 0) > 65535
+          · simp only [c4, ↓reduceIte]; exact ⟨by first | rfl | trivial, ⟨tE, trng, tacc, tev⟩⟩
+          · simp only [c4, ↓reduceIte]
+            have henc := SymEq.encrypt S tE.sym hi p (cap - A.2.acc.length)
+            rw [← henc.1, ← henc.2.2]
+            cases hE1 : (A.2.hs.sym.encryptAndMixHash S p (cap - A.2.acc.length)).1 with
+            | err e =>
+              dsimp only
+              refine ⟨by first | rfl | trivial, ⟨?_, trng, by first | rfl | trivial, by first | rfl | trivial⟩⟩
+              (refine ⟨henc.2.1, ?_, ?_, ?_, ?_, ?_, ?_, ?_, ?_, ?_, ?_, ?_, ?_, ?_, ?_, ?_⟩ <;> equiv_rest tE)
+            | panic q =>
+              dsimp only
+              refine ⟨by first | rfl | trivial, ⟨?_, trng, by first | rfl | trivial, by first | rfl | trivial⟩⟩
+              (refine ⟨henc.2.1, ?_, ?_, ?_, ?_, ?_, ?_, ?_, ?_, ?_, ?_, ?_, ?_, ?_, ?_, ?_⟩ <;> equiv_rest tE)
+            | ok ct =>
+              dsimp only
+              refine ⟨by first | rfl | trivial, ⟨?_, ?_, by first | rfl | trivial, by first | rfl | trivial⟩⟩
+              · rw [SymEq.split S henc.2.1]
+                split
+                · refine ⟨henc.2.1, ?_, ?_, ?_, ?_, ?_, ?_, ?_, ?_, ?_, ?_, ?_, ?_, ?_, ?_, ?_⟩ <;> equiv_rest tE
+                · (refine ⟨henc.2.1, ?_, ?_, ?_, ?_, ?_, ?_, ?_, ?_, ?_, ?_, ?_, ?_, ?_, ?_, ?_⟩ <;> equiv_rest tE)
+              · split <;> exact trng
+
+theorem readInner_equiv (S : Suite) {a b : HS} (h : Equiv a b) (inv : SymInv a.sym)
+    (m : Bytes) (cap : Nat) :
+    (readInner S a m cap).1 = (readInner S b m cap).1 ∧ Equiv (readInner S a m cap).2.1 (readInner S b m cap).2.1 ∧
+    (readInner S a m cap).2.2 = (readInner S b m cap).2.2 := by
+  have r0 : REq { hs := a, ptr := m, ev := [] } { hs := b, ptr := m, ev := [] } := ⟨h, rfl, rfl⟩
+  have ht := readToks_equiv S (a.msgs.getD a.pos []) r0 inv
+  have hi := readToks_inv S (a.msgs.getD a.pos []) { hs := a, ptr := m, ev := [] } inv
+  unfold readInner
+  have e1 : b.myTurn = a.myTurn := h.myTurn.symm
+  have e2 : b.pos = a.pos := h.pos.symm
+  have e3 : b.msgs = a.msgs := h.msgs.symm
+  simp only [e1, e2, e3]
+  by_cases c0 : m.length > 65535
+  · simp only [c0, ↓reduceIte]; exact ⟨by first | rfl | trivial, h, by first | rfl | trivial⟩
+  · simp only [c0, ↓reduceIte]
+    by_cases c1 : a.myTurn = true
+    · simp only [c1, ↓reduceIte]; exact ⟨by first | rfl | trivial, h, by first | rfl | trivial⟩
+    · simp only [c1, ↓reduceIte, Bool.false_eq_true]
+      by_cases c2 : a.pos ≥ a.msgs.length
+      · simp only [c2, ↓reduceIte]; exact ⟨by first | rfl | trivial, h, by first | rfl | trivial⟩
+      · simp only [c2, ↓reduceIte]
+        generalize hA : readToks S (a.msgs.getD a.pos []) { hs := a, ptr := m, ev := [] } = A at ht hi ⊢
+        generalize hB : readToks S (a.msgs.getD a.pos []) { hs := b, ptr := m, ev := [] } = B at ht ⊢
+        obtain ⟨t1, ⟨tE, tptr, tev⟩⟩ := ht
+        rw [← t1]
+        cases hA1 : A.1 with
+        | err e => dsimp only; exact ⟨rfl, tE, by rw [tev]⟩
+        | panic q => dsimp only; exact ⟨rfl, tE, by rw [tev]⟩
+        | ok u =>
+          dsimp only
+          have f1 : B.2.ptr = A.2.ptr := tptr.symm
+          have f3 : B.2.ev = A.2.ev := tev.symm
+          simp only [f1, f3]
+          have hdec := SymEq.decrypt S tE.sym hi A.2.ptr cap
+          rw [← hdec.1, ← hdec.2.2]
+          cases hD1 : (A.2.hs.sym.decryptAndMixHash S A.2.ptr cap).1 with
+          | err e =>
+            dsimp only
+            refine ⟨rfl, ?_, rfl⟩
+            refine ⟨hdec.2.1, ?_, ?_, ?_, ?_, ?_, ?_, ?_, ?_, ?_, ?_, ?_, ?_, ?_, ?_, ?_⟩ <;> equiv_rest tE
+          | panic q =>
+            dsimp only
+            refine ⟨rfl, ?_, rfl⟩
+            refine ⟨hdec.2.1, ?_, ?_, ?_, ?_, ?_, ?_, ?_, ?_, ?_, ?_, ?_, ?_, ?_, ?_, ?_⟩ <;> equiv_rest tE
+          | ok pl =>
+            dsimp only
+            rw [SymEq.split S hdec.2.1]
+            have hk : (Sym.decryptAndMixHash S B.2.hs.sym A.2.ptr cap).2.1.hasKey =
+                (Sym.decryptAndMixHash S A.2.hs.sym A.2.ptr cap).2.1.hasKey := hdec.2.1.2.2.1.symm
+            split
+            · dsimp only
+              refine ⟨by rw [hk], ?_, rfl⟩
+              refine ⟨hdec.2.1, ?_, ?_, ?_, ?_, ?_, ?_, ?_, ?_, ?_, ?_, ?_, ?_, ?_, ?_, ?_⟩ <;> equiv_rest tE
+            · dsimp only
+              refine ⟨by rw [hk], ?_, rfl⟩
+              refine ⟨hdec.2.1, ?_, ?_, ?_, ?_, ?_, ?_, ?_, ?_, ?_, ?_, ?_, ?_, ?_, ?_, ?_⟩ <;> equiv_rest tE
+
+end HS
+end SnowVerif.Model
